@@ -1257,9 +1257,11 @@ class Pool(BasePool[C]):
 
         # Mark the block as suppressed, so that nothing will be
         # transferred to it. It will be unsuppressed if anything
-        # actually tries to connect.
+        # actually tries to connect.  Requests that are already queued
+        # on the block did try to connect: leave the block alone then.
         # TODO: Is it possible to safely drop the block?
-        block.suppressed = True
+        if not block.count_waiters():
+            block.suppressed = True
 
         conns = []
         while (conn := block.try_steal()) is not None:
